@@ -2,8 +2,8 @@
 import runner_props
 
 PROP = "C05"
-LEAN_MODULES = ["PamsProps.C05", "PamsProps.SimE2E", "PamsProps.SimE2E", "PamsProps.SrcLedger", "PamsProps.SrcRunner"]
-NAMESPACES = ["Pams.C05", "Pams.C05", "Pams.SimDemo", "Pams.C05", "Pams.C05"]
+LEAN_MODULES = ["PamsProps.C05", "PamsProps.SimE2E", "PamsProps.SimE2E", "PamsProps.SrcLedger", "PamsProps.SrcRunner", "PamsProps.SrcEndow"]
+NAMESPACES = ["Pams.C05", "Pams.C05", "Pams.SimDemo", "Pams.C05", "Pams.C05", "Pams.C05"]
 DRIVERS = ["Runner", "Pure", "Sim", "PyRun"]
 TRUSTED = [
     "scheduler model treats markets, agents, user events and random draws as oracles (tape recorded from the real run through public extension points: simulator_class, registered agent/market/event classes, prng subclass, Logger subclass)",
